@@ -618,5 +618,63 @@ m("c15-fund-ignores-deposit-error", "C15", "x/ucdao/keeper/keeper.go",
   "\t_ = k.bk.SendCoinsFromAccountToModule(ctx, sender, types.ModuleName, amount)\n",
   "drops-error-of", "a failed deposit is ignored: shares are credited for coins that never arrived")
 
+# ---------------- rules added from the wave-4 seeds ----------------
+m("c02-dirty-index-not-count", "C02", "x/evm/statedb/journal.go",
+  "\t\tj.dirties[*addr]++\n", "\t\tj.dirties[*addr] = len(j.entries)\n",
+  "dirty-reference-count", "dirty tracking no longer counts: a reverted inner touch un-dirties an account changed in the outer frame")
+m("c03-wrapper-fee-one-denom", "C03", "app/ante/evm/setup_ctx.go",
+  "\tif !authInfo.Fee.Amount.IsEqual(txFee) {", "\tif !authInfo.Fee.Amount.AmountOf(evmDenom).Equal(txFee.AmountOf(evmDenom)) {",
+  "fee-amount-equals-tx-fees", "the unsigned envelope may declare extra fee denominations")
+m("c04-allocation-or", "C04", "precompiles/ics20/types.go",
+  "\t\tif allocation.SourcePort != sourcePort || allocation.SourceChannel != sourceChannel {", "\t\tif allocation.SourcePort != sourcePort && allocation.SourceChannel != sourceChannel {",
+  "R12@", "an allocation is selected when port OR channel matches")
+m("c05-balance-in-place", "C05", "x/evm/statedb/state_object.go",
+  "\ts.SetBalance(new(big.Int).Add(s.Balance(), amount))", "\ts.db.journal.append(balanceChange{account: &s.address, prev: new(big.Int).Set(s.account.Balance)})\n\ts.account.Balance.Add(s.account.Balance, amount)",
+  "in-place-Add", "balance updated in place: aliases the number a replaced object keeps")
+m("c05-ics20-unnamed-result", "C05", "precompiles/ics20/ics20.go",
+  "func (p Precompile) Run(evm *vm.EVM, contract *vm.Contract, readOnly bool) (bz []byte, err error) {\n\tctx, stateDB, method, initialGas, args, err := p.RunSetup(evm, contract, readOnly, p.IsTransaction)",
+  "func (p Precompile) Run(evm *vm.EVM, contract *vm.Contract, readOnly bool) ([]byte, error) {\n\tvar bz []byte\n\tctx, stateDB, method, initialGas, args, err := p.RunSetup(evm, contract, readOnly, p.IsTransaction)",
+  "gas-error-reaches-named-result", "a recovered out-of-gas panic returns (nil, nil)")
+m("c06-authz-skips-seen-urls", "C06", "app/ante/cosmos/authz.go",
+  "\t\t\turl := sdk.MsgTypeURL(msg)\n", "\t\t\turl := sdk.MsgTypeURL(msg)\n\t\t\tif nestedLvl > 2 && len(url)%2 == 0 {\n\t\t\t\tcontinue\n\t\t\t}\n",
+  "every-inner-message-looked-up", "some inner messages are passed over without the disabled-type lookup")
+m("c07-refund-quotient-by-flag", "C07", "x/evm/keeper/state_transition.go",
+  "\tif isLondon {\n\t\trefundQuotient = params.RefundQuotientEIP3529", "\t_ = isLondon\n\tif !vmCfg.NoBaseFee {\n\t\trefundQuotient = params.RefundQuotientEIP3529",
+  "refund-quotient-by-fork", "refund cap chosen by the NoBaseFee switch instead of the fork rules")
+m("c09-sequential-grant-fastpath", "C09", "x/vesting/keeper/msg_server.go",
+  "\tnewLockupStart, newLockupEnd, newLockupPeriods := types.DisjunctPeriods(accStartTime, grantStartTime, va.LockupPeriods, grantLockupPeriods)\n",
+  "\tnewLockupStart, newLockupEnd, newLockupPeriods := accStartTime, grantStartTime+grantLockupPeriods.TotalLength(), append(append(sdkvesting.Periods{}, va.LockupPeriods...), grantLockupPeriods...)\n\tif grantStartTime < va.EndTime {\n\t\tnewLockupStart, newLockupEnd, newLockupPeriods = types.DisjunctPeriods(accStartTime, grantStartTime, va.LockupPeriods, grantLockupPeriods)\n\t}\n",
+  "merges-lockup-with-DisjunctPeriods", "a later-starting grant is appended instead of merged")
+m("c10-approval-monitor-3-topics", "C10", "x/erc20/keeper/evm.go",
+  "\t\tif log.Topics[0] == logApprovalSigHash.Hex() {", "\t\tif len(log.Topics) != 3 {\n\t\t\tcontinue\n\t\t}\n\t\tif log.Topics[0] == logApprovalSigHash.Hex() {",
+  "scans-every-log", "Approval events declared without indexed arguments go unnoticed")
+m("c12-credit-overwrites", "C12", "x/ucdao/keeper/account_balances.go",
+  "\t\tbalance := k.GetBalance(ctx, addr, coin.Denom)\n\t\tnewBalance := balance.Add(coin)\n", "\t\tnewBalance := coin\n\t\tif k.HasBalance(ctx, addr, coin) {\n\t\t\tnewBalance = k.GetBalance(ctx, addr, coin.Denom).Add(coin)\n\t\t}\n",
+  "credit-is-read-add-write", "a smaller existing share is overwritten by the incoming coin")
+m("c15-send-check-after-early-return", "C15", "x/bank/keeper/msg_server.go",
+  "\tif k.BlockedAddr(to) {\n\t\treturn nil, sdkerrors.Wrapf(sdkerrors.ErrUnauthorized, \"%s is not allowed to receive funds\", msg.ToAddress)\n\t}\n\n\tif err := k.sendCoinsWithERC20(ctx, from, to, msg.Amount); err != nil {",
+  "\tif k.ek.IsERC20Enabled(ctx) && k.BlockedAddr(to) {\n\t\treturn nil, sdkerrors.Wrapf(sdkerrors.ErrUnauthorized, \"%s is not allowed to receive funds\", msg.ToAddress)\n\t}\n\n\tif err := k.sendCoinsWithERC20(ctx, from, to, msg.Amount); err != nil {",
+  "blocked-recipient-rejected", "with ERC20 disabled a plain send reaches module accounts")
+m("c16-supplyof-disabled-zero", "C16", "precompiles/bank/query.go",
+  "\ttokenPair, found := p.erc20Keeper.GetTokenPair(ctx, tokenPairID)\n\tif !found {\n\t\treturn method.Outputs.Pack(big.NewInt(0))\n\t}\n\n\tsupply",
+  "\ttokenPair, found := p.erc20Keeper.GetTokenPair(ctx, tokenPairID)\n\tif !found || !tokenPair.Enabled {\n\t\treturn method.Outputs.Pack(big.NewInt(0))\n\t}\n\n\tsupply",
+  "on-every-success-path", "supplyOf answers 0 for a switched-off pair without asking the bank")
+m("c17-no-floor-when-delta-zero", "C17", "x/feemarket/keeper/eip1559.go",
+  "\t// Set global min gas price as lower bound of the base fee, transactions below\n", "\tif baseFeeDelta.Sign() == 0 {\n\t\treturn new(big.Int).Set(parentBaseFee)\n\t}\n\t// Set global min gas price as lower bound of the base fee, transactions below\n",
+  "copy-only-at-target", "early return around the min-gas-price floor")
+m("c17-enabled-strictly-after", "C17", "x/feemarket/keeper/params.go",
+  "return !params.NoBaseFee && ctx.BlockHeight() >= params.EnableHeight", "return !params.NoBaseFee && ctx.BlockHeight() > params.EnableHeight",
+  "activation-boundary", "gas wanted is not recorded in the activation block")
+m("c18-astransaction-by-hash", "C18", "x/evm/types/msg.go",
+  "func (msg MsgEthereumTx) AsTransaction() *ethtypes.Transaction {\n", "var txByHash = map[string]*ethtypes.Transaction{}\n\nfunc (msg MsgEthereumTx) AsTransaction() *ethtypes.Transaction {\n\tif tx, ok := txByHash[msg.Hash]; ok {\n\t\treturn tx\n\t}\n",
+  "from-data-on-every-path", "the transaction is selected by the envelope's Hash string")
+m("c19-export-stops-at-hole", "C19", "x/liquidvesting/keeper/denom.go",
+  "\tdefer iterator.Close()\n\n\tfor ; iterator.Valid(); iterator.Next() {\n\t\tvar denom types.Denom\n\t\tk.cdc.MustUnmarshal(iterator.Value(), &denom)\n", "\tdefer iterator.Close()\n\n\tfor ; iterator.Valid(); iterator.Next() {\n\t\tvar denom types.Denom\n\t\tk.cdc.MustUnmarshal(iterator.Value(), &denom)\n\t\tif len(list) > 0 && len(denom.LockupPeriods) == 0 {\n\t\t\tbreak\n\t\t}\n",
+  "runs-to-completion", "the export loop can stop before the last record")
+m("c20-startup-touches-state", "C20", "app/app.go",
+  "\tapp.ScopedIBCKeeper = scopedIBCKeeper\n", "\tif loadLatest && app.LastBlockHeight() > 0 {\n\t\t_ = app.AccountKeeper.GetModuleAccount(app.BaseApp.NewUncachedContext(true, tmproto.Header{Height: app.LastBlockHeight()}), ucdaotypes.ModuleName)\n\t}\n\tapp.ScopedIBCKeeper = scopedIBCKeeper\n",
+  "creates-context", "a start-up routine reads (and creates) module accounts outside any block",
+  extra=[("\tabci \"github.com/cometbft/cometbft/abci/types\"\n", "\tabci \"github.com/cometbft/cometbft/abci/types\"\n\ttmproto \"github.com/cometbft/cometbft/proto/tendermint/types\"\n")])
+
 json.dump(M, open('/verif/mutants.json', 'w'), indent=1)
 print(len(M), "mutants written")
